@@ -443,3 +443,57 @@ Example gap_trace_ok_after :
   lquiescent s /\ l_ghost s = false /\ In 1%nat (l_started s) /\ told (l_wire s) 1 7 = false /\
   In (1%nat, 7%nat, true) (l_wire s) /\ In (1%nat, 7%nat, false) (l_wire s).
 Proof. vm_compute. repeat split; auto 10. Qed.
+
+(* ---------- the same loop with the two regions executed as one ---------- *)
+
+(* If the incSessions pass and the sweep are one atomic step (no release of
+   m.mtx between them), the ghost flag can never be raised and the full
+   statement holds.  This is the statement for the loop body without the
+   "intentional mtx hold-break". *)
+Inductive pact :=
+| PSubscribe (ch : nat) | PRelease (ch : nat) | PAddPeer (p : nat) | PDropPeer (p : nat) | PWake | PPass.
+
+Definition expand1 (a : pact) : list lact :=
+  match a with
+  | PSubscribe ch => [LSubscribe ch]
+  | PRelease ch => [LRelease ch]
+  | PAddPeer p => [LAddPeer p]
+  | PDropPeer p => [LDropPeer p]
+  | PWake => [LWake]
+  | PPass => [LInit; LSweep]
+  end.
+
+Definition expand (l : list pact) : list lact := flat_map expand1 l.
+
+Lemma lrun_app s l1 l2 : lrun s (l1 ++ l2) = lrun (lrun s l1) l2.
+Proof. unfold lrun. apply fold_left_app. Qed.
+
+Lemma nogap_step s a :
+  l_phase s <> PGap -> l_ghost s = false ->
+  l_phase (lrun s (expand1 a)) <> PGap /\ l_ghost (lrun s (expand1 a)) = false.
+Proof.
+  destruct s as [c0 pb inc st al w wk ph g]. cbn [l_phase l_ghost]. intros Hp Hg. subst g.
+  destruct ph; try contradiction; destruct a as [ch|ch|p|p| |]; unfold lrun;
+    cbn [expand1 fold_left lstep l_phase l_ghost l_ch l_pubbed l_inc l_started l_all l_wire l_wake];
+    repeat match goal with
+           | |- context [match ?x with _ => _ end] => destruct x
+           | |- context [if ?x then _ else _] => destruct x
+           end;
+    cbn [l_phase l_ghost orb andb negb]; rewrite ?andb_false_r; split; try discriminate; reflexivity.
+Qed.
+
+Lemma nogap_run l : forall s,
+  l_phase s <> PGap -> l_ghost s = false ->
+  l_phase (lrun s (expand l)) <> PGap /\ l_ghost (lrun s (expand l)) = false.
+Proof.
+  induction l as [|a l IH]; intros s Hp Hg; cbn [expand flat_map]; [cbn; auto|].
+  rewrite lrun_app. destruct (nogap_step s a Hp Hg) as [H1 H2]. apply IH; assumption.
+Qed.
+
+Theorem unsub_at_quiescence_atomic_pass l p ch :
+  let s := lrun linit (expand l) in
+  lquiescent s -> In p (l_started s) -> nsubs ch (l_ch s) = 0%nat -> told (l_wire s) p ch = false.
+Proof.
+  intros s Q Hp Hz. apply unsub_at_quiescence_partial; auto.
+  apply (nogap_run l linit); [discriminate|reflexivity].
+Qed.
